@@ -883,10 +883,204 @@ func cmdCorr(seed uint64, n int, repo string) {
 			}
 		}
 	}
+	cmdCorrSenc(r, n/2+20, repo)
 	var ks []string
 	for k, v := range corrStats {
 		ks = append(ks, fmt.Sprintf("%s=%d", k, v))
 	}
 	sort.Strings(ks)
 	fmt.Fprintf(os.Stderr, "STATS %s\n", strings.Join(ks, "; "))
+}
+
+// ------------------------------------------------------------------ senc boxes (coq/c02/C02AggSencModel.v)
+//   A <id> senc <H n (iv nsub (clear prot)*)* | D fields> <ops> <add outcomes> <observations>
+type sencAdd struct {
+	iv   []byte
+	subs []mp4.SubSamplePattern
+}
+
+func sencFields(t *tw, s *mp4.SencBox) {
+	t.a("D")
+	t.u(uint64(s.Version))
+	t.u(uint64(s.Flags))
+	t.u(uint64(s.SampleCount))
+	t.u(uint64(s.GetPerSampleIVSize()))
+	t.n(len(s.IVs))
+	for _, iv := range s.IVs {
+		t.hexb(iv)
+	}
+	t.n(len(s.SubSamples))
+	for _, l := range s.SubSamples {
+		t.n(len(l))
+		for _, p := range l {
+			t.u(uint64(p.BytesOfClearData))
+			t.u(uint64(p.BytesOfProtectedData))
+		}
+	}
+	if s.ReadButNotParsed() {
+		t.a("1")
+		t.hexb(mp4.VerifC02SencRaw(s))
+	} else {
+		t.a("0")
+	}
+	t.u(mp4.VerifC02SencReadSize(s))
+}
+
+func sencHistory(s *mp4.SencBox, ops string) string {
+	var obs []string
+	for _, op := range ops {
+		var o string
+		p := hx.Try(func() {
+			switch op {
+			case 's':
+				o = "S" + hx.HexU(s.Size())
+			case 'i':
+				var ib bytes.Buffer
+				_ = s.Info(&ib, "all:1", "", "  ")
+				o = "I"
+			case 'e':
+				var buf bytes.Buffer
+				if err := s.Encode(&buf); err != nil {
+					o = "E"
+				} else {
+					sum := md5.Sum(buf.Bytes())
+					o = fmt.Sprintf("B%x:%s", buf.Len(), hex.EncodeToString(sum[:]))
+				}
+			case 'w':
+				sw := bits.NewFixedSliceWriter(1 << 16)
+				if err := s.EncodeSW(sw); err != nil {
+					o = "E"
+				} else {
+					sum := md5.Sum(sw.Bytes())
+					o = fmt.Sprintf("B%x:%s", len(sw.Bytes()), hex.EncodeToString(sum[:]))
+				}
+			}
+		})
+		if p != "" {
+			obs = append(obs, "P")
+			break
+		}
+		obs = append(obs, fmt.Sprintf("%s/%x", o, s.Flags))
+	}
+	return strings.Join(obs, " ")
+}
+
+func cmdCorrSenc(r *hx.Rng, n int, repo string) {
+	// histories of AddSample from CreateSencBox
+	for i := 0; i < n; i++ {
+		s := mp4.CreateSencBox()
+		t := &tw{}
+		k := r.Intn(6)
+		t.a("H")
+		t.n(k)
+		var outc []byte
+		ivMode := r.Intn(4) // 0 none, 1 all 8, 2 all 16, 3 mixed
+		subMode := r.Intn(4)
+		for j := 0; j < k; j++ {
+			var a sencAdd
+			switch ivMode {
+			case 1:
+				a.iv = r.Bytes(8, nil)
+			case 2:
+				a.iv = r.Bytes(16, nil)
+			case 3:
+				a.iv = r.Bytes(r.Pick(0, 8, 8, 16, 3), nil)
+			}
+			ns := 0
+			switch subMode {
+			case 1:
+				ns = r.Range(1, 2)
+			case 2, 3:
+				ns = r.Pick(0, 0, 1, 2)
+			}
+			for q := 0; q < ns; q++ {
+				a.subs = append(a.subs, mp4.SubSamplePattern{BytesOfClearData: uint16(r.Intn(1 << 16)), BytesOfProtectedData: uint32(r.U64())})
+			}
+			t.hexb(a.iv)
+			t.n(len(a.subs))
+			for _, p := range a.subs {
+				t.u(uint64(p.BytesOfClearData))
+				t.u(uint64(p.BytesOfProtectedData))
+			}
+			var err error
+			p := hx.Try(func() { err = s.AddSample(mp4.SencSample{IV: a.iv, SubSamples: a.subs}) })
+			switch {
+			case p != "":
+				outc = append(outc, 'p')
+			case err != nil:
+				outc = append(outc, 'e')
+			default:
+				outc = append(outc, 'o')
+			}
+		}
+		if len(outc) == 0 {
+			outc = []byte{'-'}
+		}
+		ops := genOps(r)
+		if i%4 == 3 {
+			// the malformed stream: fields poked after the box was built; emitted as fields
+			switch r.Intn(6) {
+			case 0:
+				s.Flags &^= 2
+			case 1:
+				s.SampleCount += uint32(r.Range(1, 2))
+			case 2:
+				if len(s.SubSamples) > 0 {
+					s.SubSamples = s.SubSamples[:len(s.SubSamples)-1]
+				}
+			case 3:
+				s.SetPerSampleIVSize(byte(r.Pick(0, 8, 16)))
+			case 4:
+				if len(s.IVs) > 0 {
+					s.IVs = s.IVs[:len(s.IVs)-1]
+				}
+			default:
+				s.Flags |= 2
+			}
+			t = &tw{}
+			sencFields(t, s)
+			outc = []byte{'-'}
+			corrStats["cases senc (poked)"]++
+		}
+		obs := sencHistory(s, ops)
+		corrStats["cases senc"]++
+		fmt.Fprintf(out, "A\ts%d\tsenc\t%s\t%s\t%s\t%s\n", i, strings.TrimSpace(t.sb.String()), ops, string(outc), obs)
+	}
+	// senc boxes of the testdata, as the decoders leave them (parsed, or read but not parsed)
+	nd := 0
+	for fi, p := range smallFiles(repo) {
+		data, err := os.ReadFile(p)
+		if err != nil {
+			continue
+		}
+		for v := 0; v < 2; v++ {
+			f, err := decodeFile(data, v == 1, mp4.EncModeBoxTree)
+			if err != nil || f == nil {
+				continue
+			}
+			var sencs []*mp4.SencBox
+			for _, c := range f.Children {
+				walkBoxes(c, 0, func(b mp4.Box) {
+					if tf, ok := b.(*mp4.TrafBox); ok && tf.Senc != nil {
+						sencs = append(sencs, tf.Senc)
+					}
+				})
+			}
+			for k, s := range sencs {
+				if k > 2 {
+					break
+				}
+				t := &tw{}
+				sencFields(t, s)
+				if t.bytes > maxTokBytes {
+					continue
+				}
+				ops := genOps(r)
+				obs := sencHistory(s, ops)
+				corrStats["cases senc (decoded)"]++
+				nd++
+				fmt.Fprintf(out, "A\tsd%d.%d.%d\tsenc\t%s\t%s\t-\t%s\n", fi, v, k, strings.TrimSpace(t.sb.String()), ops, obs)
+			}
+		}
+	}
 }
